@@ -492,6 +492,22 @@ fn print_renamed(src: &mut Src, prog: &[Stmt], style: Style, m: &std::collection
 }
 
 pub fn check_c17(src: &mut Src, prog: &[Stmt], out: &mut Vec<Failure>) -> bool {
+    // one program in six also includes a file that does not exist (reported, analysis goes on):
+    // what one analysis leaves behind must not change the next one
+    let owned: Vec<Stmt>;
+    let prog: &[Stmt] = if src.chance(1, 6) {
+        let mut v = vec![Stmt::Include(format!("no_such_file_{}.inc", src.below(3)))];
+        let at = src.below(prog.len() + 1);
+        v.extend_from_slice(prog);
+        // at the top or between two top-level statements
+        v.rotate_left(1);
+        let inc = v.pop().unwrap();
+        v.insert(at, inc);
+        owned = v;
+        &owned
+    } else {
+        prog
+    };
     let base = print_program(src, prog, Style::Spaced);
     if !clean_parse(&base.text) {
         return false;
